@@ -378,15 +378,15 @@ class BackupOrder(Flow):
 
 
 def rule_r3(ctx) -> RuleResult:
-    rr = RuleResult("C11.R3", "backup_db() precedes overwrite_pages(..., True) whenever the dump is not re-extracted", min_instances=2)
+    rr = RuleResult("C11.R3", "backup_db() precedes overwrite_pages(..., True) whenever the dump is not re-extracted", min_instances=1)
     fn = ctx.fn("dumpparser.analyze_and_overwrite_pages")
     w = BackupOrder()
     w.run_function(fn, [(None, False)])
     by = {}
     for n, skip, backed in w.sites:
         by.setdefault(n, []).append((skip, backed))
-    if len(by) < 2:
-        raise AnalysisError("analyze_and_overwrite_pages: fewer than 2 overwrite_pages(..., True) sites (2 confirmed by hand)")
+    if len(by) < 1:   # (two sites today; merging the two arms that overwrite is a refactoring, so the count is not fixed)
+        raise AnalysisError("analyze_and_overwrite_pages: no overwrite_pages(..., True) site found")
     for n, lst in by.items():
         bad = [(s, b) for s, b in lst if s is not False and not b]
         if bad:
